@@ -10,12 +10,13 @@
 // op lines (no ';' so the shrinker leaves them alone):
 //   coll <comm> <op> <ty> root=R n=N pad=K m=M fill=[..] lens=[..] displs=[..] : [in0] | [in1] | ...
 //   p2p <mode> <cont> <ty> shift=S : [src0]/[dst0] | [src1]/[dst1] | ...
-//   pack <mode> shift=S extra=K : kind/ty/[src]/[dst] kind/ty/[src]/[dst] ...
-//   tmap <ty> count=C lay=[..]
+//   pack <mode> np=P shift=S extra=K : kind/ty/[src]/[dst] kind/ty/[src]/[dst] ...
+//   tmap <ty> np=P count=C lay=[..]
 #include <config.h>
 
 #include <mpi.h>
 
+#include <algorithm>
 #include <array>
 #include <cassert>
 #include <climits>
@@ -614,6 +615,8 @@ static Result execColl(const std::string& line) {
   res.impl = cellsStr(got);
   stat("coll_" + baseOf(k.op));
   stat("form_" + formOf(k.op));
+  if (baseOf(k.op) == "red") stat("fun_" + funOf(k.op));
+  if (baseOf(k.op) != "red" && baseOf(k.op) != "barrier") stat("len_" + std::to_string(k.comm == "world" ? (int)k.ins[L.rank].size() / ti.E : (int)L.in.size() / ti.E));
   stat("ty_" + k.ty);
   stat("comm_" + k.comm);
   if (got.size() != want.size()) { res.oracle = "FAIL result has " + std::to_string(got.size()) + " cells, expected " + std::to_string(want.size()); return res; }
@@ -790,10 +793,12 @@ static Result execPack(const std::string& line) {
   MPI_Comm_rank(MPI_COMM_WORLD, &rank);
   MPI_Comm_size(MPI_COMM_WORLD, &size);
   Result res;
-  size_t c = line.find(" : ");
+  size_t c = line.find(" :");
+  if (c == std::string::npos) throw std::runtime_error("no ' :'");
   auto toks = words(line.substr(0, c));
   std::string mode = toks.at(1);
   int shift = std::stoi(kv(toks, "shift")), extra = std::stoi(kv(toks, "extra"));
+  if (std::stoi(kv(toks, "np")) != size) { res.impl = "ERR:ranks"; res.oracle = "ok trivial"; return res; }
   auto items = parseItems(line.substr(c + 2));
   MpiComm cc(MPI_COMM_WORLD);
   int to = (rank + shift) % size, from = ((rank - shift) % size + size) % size, root = shift % size;
@@ -907,7 +912,9 @@ static void flattenType(MPI_Datatype t, MPI_Aint base, Blocks& out) {
     if (cb != MPI_COMBINER_NAMED) MPI_Type_free(&d);
   }
 }
-static Blocks mergeBlocks(const Blocks& b) {
+// canonical form: sorted by displacement (the order of the blocks only matters on the wire), adjacent blocks merged
+static Blocks mergeBlocks(Blocks b) {
+  std::stable_sort(b.begin(), b.end(), [](const std::pair<long, long>& x, const std::pair<long, long>& y) { return x.first < y.first; });
   Blocks m;
   for (auto& x : b) {
     if (x.second == 0) continue;
@@ -916,13 +923,12 @@ static Blocks mergeBlocks(const Blocks& b) {
   }
   return m;
 }
-// bytes in which two objects built through the public interface differ
-template <class T, class Mk> Blocks diffBytes(Mk mk, cell a, cell b) {
-  alignas(T) unsigned char A[sizeof(T)], B[sizeof(T)];
-  std::memset(A, 0, sizeof(T));
-  std::memset(B, 0, sizeof(T));
-  new (A) T(mk(a));
-  new (B) T(mk(b));
+// bytes of an object that change when it is modified in place through its public interface
+template <class T, class Mod> Blocks changedBytes(T& obj, Mod mod) {
+  unsigned char A[sizeof(T)], B[sizeof(T)];
+  std::memcpy(A, &obj, sizeof(T));
+  mod(obj);
+  std::memcpy(B, &obj, sizeof(T));
   long lo = -1, hi = -1;
   for (size_t i = 0; i < sizeof(T); ++i) if (A[i] != B[i]) { if (lo < 0) lo = (long)i; hi = (long)i; }
   if (lo < 0) throw std::runtime_error("probe found no differing byte");
@@ -938,26 +944,25 @@ template <class T> Layout layoutOf() {
     L.lay = {d, 3, (long)sizeof(int)};
     L.comm = {{d, 3 * (long)sizeof(int)}};
   } else if constexpr (std::is_same_v<T, Big>) {
-    cell mx = (cell)MASK96;
-    Blocks b = diffBytes<Big>([](cell v) { return TT<Big>::from(&v); }, 0, mx);
+    Big x(0u);
+    Blocks b = changedBytes(x, [](Big& y) { y = ~y; });  // all 96 bits flip
     L.lay = {b[0].first, (long)Big::n, 2};
     L.comm = b;
   } else if constexpr (std::is_same_v<T, PairIC>) {
     L.lay = {(long)offsetof(PairIC, first), (long)sizeof(int), (long)offsetof(PairIC, second), 1, (long)sizeof(PairIC)};
     L.comm = {{L.lay[0], L.lay[1]}, {L.lay[2], L.lay[3]}};
   } else if constexpr (std::is_same_v<T, PLI>) {
-    Blocks a = diffBytes<PLI>([](cell v) { cell c[4] = {0, v, 0, 0}; return TT<PLI>::from(c); }, 0, 0x7f);
+    PLI p(0, 0, false);
+    Blocks a = changedBytes(p, [](PLI& q) { q.setAttribute(0x7f); });
     L.lay = {a[0].first, (long)sizeof(PLI)};
     L.comm = a;
   } else if constexpr (std::is_same_v<T, IP>) {
-    Blocks g = diffBytes<IP>([](cell v) { cell c[5] = {v, 0, 0, 0, 0}; return TT<IP>::from(c); }, 0, -1);
-    Blocks a = diffBytes<IP>([](cell v) { cell c[5] = {0, 0, v, 0, 0}; return TT<IP>::from(c); }, 0, 0x7f);
-    Blocks li = diffBytes<IP>([](cell v) { cell c[5] = {0, v, 0, 0, 0}; return TT<IP>::from(c); }, 0, (cell)(unsigned __int128)SIZE_MAX);
-    Blocks pa = diffBytes<PLI>([](cell v) { cell c[4] = {0, v, 0, 0}; return TT<PLI>::from(c); }, 0, 0x7f);
-    Blocks pl = diffBytes<PLI>([](cell v) { cell c[4] = {v, 0, 0, 0}; return TT<PLI>::from(c); }, 0, (cell)(unsigned __int128)SIZE_MAX);
-    long offL = li[0].first - pl[0].first;
-    L.lay = {g[0].first, g[0].second, offL, pa[0].first, (long)sizeof(PLI), (long)sizeof(IP)};
-    L.comm = {g[0], a[0]};
+    IP ip(0, PLI(0, 0, false));
+    long offG = (long)((const char*)&ip.global() - (const char*)&ip);
+    long offL = (long)((const char*)&ip.local() - (const char*)&ip);
+    Blocks a = changedBytes(ip, [](IP& q) { q.local().setAttribute(0x7f); });
+    L.lay = {offG, (long)sizeof(int), offL, a[0].first - offL, (long)sizeof(PLI), (long)sizeof(IP)};
+    L.comm = {{offG, (long)sizeof(int)}, a[0]};
   } else {
     L.lay = {(long)sizeof(T)};
     L.comm = {{0, (long)sizeof(T)}};
@@ -972,13 +977,20 @@ static std::string blocksStr(const Blocks& b) {
 static std::string tmapLine(const std::string& ty, int count) {
   std::string lay;
   withType(ty, [&](auto tag) { using T = typename decltype(tag)::type; lay = listStr(layoutOf<T>().lay); });
-  return "tmap " + ty + " count=" + std::to_string(count) + " lay=" + lay;
+  int P;
+  MPI_Comm_size(MPI_COMM_WORLD, &P);
+  return "tmap " + ty + " np=" + std::to_string(P) + " count=" + std::to_string(count) + " lay=" + lay;
 }
 static Result execTmap(const std::string& line) {
   Result res;
   auto toks = words(line);
   std::string ty = toks.at(1);
   int count = std::stoi(kv(toks, "count"));
+  {
+    int size;
+    MPI_Comm_size(MPI_COMM_WORLD, &size);
+    if (std::stoi(kv(toks, "np")) != size) { res.impl = "ERR:ranks"; res.oracle = "ok trivial"; return res; }
+  }
   withType(ty, [&](auto tag) {
     using T = typename decltype(tag)::type;
     MPI_Datatype dt = Dune::MPITraits<T>::getType();
@@ -1126,7 +1138,7 @@ static std::string genColl(Rng& g, int P) {
   k.lens.assign(P, 0);
   k.displs.assign(P, 0);
   k.ins.assign(P, {});
-  std::vector<std::string> bases = {"red", "red", "bcast", "gather", "gatherv", "gatherv", "scatter", "scatterv", "scatterv", "allgather", "allgatherv", "allgatherv"};
+  std::vector<std::string> bases = {"red", "red", "red", "red", "bcast", "gather", "gatherv", "gatherv", "scatter", "scatterv", "scatterv", "allgather", "allgatherv", "allgatherv"};
   if (g.below(60) == 0) bases = {"barrier"};
   std::string base = g.pick(bases);
   auto funs = funsOf(k.ty);
@@ -1254,7 +1266,7 @@ static std::string genPack(Rng& g, int P) {
   std::string mode = g.pick(std::vector<std::string>{"local", "local", "tell", "nest", "send", "irecv", "bcast"});
   int nItems = (int)g.below(7);
   std::ostringstream os;
-  os << "pack " << mode << " shift=" << g.below(P + 1) << " extra=" << (g.coin() ? 0 : (int)g.below(40)) << " :";
+  os << "pack " << mode << " np=" << P << " shift=" << g.below(P + 1) << " extra=" << (g.coin() ? 0 : (int)g.below(40)) << " :";
   for (int i = 0; i < nItems; ++i) {
     std::string kind = g.pick(std::vector<std::string>{"s", "s", "a", "v", "v", "v", "t"});
     std::string ty = kind == "t" ? "char" : g.pick(ELEM_TYPES);
